@@ -87,7 +87,7 @@ def count_lower_shifts(res, lower_path, bits=('c', '<Word as BitArray>::BITS')):
     return n
 
 
-def check_held_back(ctx, F):
+def check_held_back(ctx, F, only_potential=False):
     enc = [b for b in F.bodies if b.promoted is None and b.name == 'encode_symbol' and b.self_adt == RENC and b.impl_trait == 'stream::Encode']
     key = 'R5/held-back/' + RENC + '::encode_symbol'
     role = 'words written + words held back grow by one per window shift'
@@ -131,6 +131,8 @@ def check_held_back(ctx, F):
             ctx.ok('R5', role, b.defpath, '%d success paths: ΔΦ = shifts ∈ {0,1}' % n_ok, key=key)
     except Unresolved as u:
         ctx.unresolved('R5', role, b.defpath, str(u), key=key)
+    if only_potential:
+        return
     # Pos::pos = bulk.pos() + held
     pos = [p for p in F.bodies if p.promoted is None and p.name == 'pos' and p.self_adt == RENC and p.impl_trait == 'Pos']
     k2 = 'R5/pos-counts-held-back/' + RENC
